@@ -1887,3 +1887,148 @@ Lemma refuted_witnesses_2 :
   refutes_m "group-non-numeric" "eval_monad_groupby" (VL [VI 1; VS [97]]) &&
   refutes_m "range-string-sorted" "eval_monad_range" (VS [104; 101; 108; 108; 111]) = true.
 Proof. vm_compute. reflexivity. Qed.
+
+(* ------------------------------------------------------------------ T1.op for + - * in the form dom -> ~K -> model = spec *)
+Lemma right_num_trees : forall a, is_arr a = false -> forall b, all_right both_num a b = true ->
+  is_num a = true /\ all_leaves is_num b = true.
+Proof.
+  intros a Ha. induction b using val_ind'; intros Hr;
+    try (cbn [all_right] in Hr; unfold both_num in Hr; apply andb_true_iff in Hr; destruct Hr as [H1 H2]; split; [exact H1|exact H2]).
+  destruct l as [|y r].
+  - cbn [all_right] in Hr. split; [exact Hr|reflexivity].
+  - change (all_right both_num a (VL (y :: r))) with (forallb (all_right both_num a) (y :: r)) in Hr.
+    rewrite forallb_forall in Hr. rewrite Forall_forall in H. split.
+    + apply (H y (or_introl eq_refl)). apply Hr. left. reflexivity.
+    + cbn [all_leaves]. apply forallb_forall. intros x Hx. apply (H x Hx). apply Hr. exact Hx.
+Qed.
+
+Lemma pairs_num_trees : forall a b, conformable a b = true -> all_pairs both_num a b = true ->
+  all_leaves is_num a = true /\ all_leaves is_num b = true.
+Proof.
+  induction a using val_ind'; intros b Hc Hp;
+    try (rewrite all_pairs_atom_l in Hp by reflexivity;
+         match type of Hp with all_right _ ?x _ = _ => destruct (right_num_trees x eq_refl b Hp) as [H1 H2] end;
+         split; [exact H1|exact H2]).
+  rewrite Forall_forall in H.
+  destruct (is_arr b) eqn:Ab.
+  - destruct (is_arr_true _ Ab) as [lb ->]. destruct (conformable_lists _ _ Hc) as [Hlen Hconf].
+    cbn [all_pairs] in Hp. pose proof (all2_combine _ _ _ Hp) as Hpairs.
+    assert (G : forall la lb, List.length la = List.length lb ->
+              (forall x y, In (x, y) (combine la lb) -> all_leaves is_num x = true /\ all_leaves is_num y = true) ->
+              forallb (all_leaves is_num) la = true /\ forallb (all_leaves is_num) lb = true).
+    { clear. induction la as [|x la IH]; intros lb HL Hxy; destruct lb as [|y lb]; try discriminate HL; [split; reflexivity|].
+      cbn [forallb]. destruct (Hxy x y (or_introl eq_refl)) as [Hx Hy]. rewrite Hx, Hy.
+      destruct (IH lb ltac:(cbn in HL; lia)) as [H1 H2]; [intros x' y' Hin; apply Hxy; right; exact Hin|].
+      rewrite H1, H2. split; reflexivity. }
+    apply (G l lb Hlen). intros x y Hin. destruct (in_combine_both _ _ _ _ Hin) as [Hx _].
+    apply (H x Hx y); [apply Hconf; exact Hin|apply Hpairs; exact Hin].
+  - destruct l as [|x0 l'].
+    + assert (Hb : is_num b = true) by (destruct b; try discriminate Ab; exact Hp).
+      split; [reflexivity|]. rewrite all_leaves_atom by exact Ab. exact Hb.
+    + rewrite all_pairs_list_atom in Hp by (try exact Ab; discriminate). rewrite forallb_forall in Hp.
+      split.
+      * cbn [all_leaves]. apply forallb_forall. intros x Hx.
+        apply (H x Hx b); [apply conformable_atom_r; exact Ab|apply Hp; exact Hx].
+      * apply (H x0 (or_introl eq_refl) b); [apply conformable_atom_r; exact Ab|apply Hp; left; reflexivity].
+Qed.
+
+Local Open Scope string_scope.
+Local Open Scope Z_scope.
+
+Lemma k_np_empty : forall (na nb kb : bool), (if negb (na && nb) then "homogenise" else if kb then "broadcast" else "") = "" -> kb = false.
+Proof. intros na nb kb H. destruct (negb (na && nb)); [discriminate H|]. destruct kb; [discriminate H|reflexivity]. Qed.
+
+Lemma plus_holds_outside_K : forall a b, canonical a && canonical b = true ->
+  dom_dyad "eval_dyad_add" a b = true -> k_dyad "eval_dyad_add" a b = "" ->
+  m_dyad "eval_dyad_add" a b = s_dyad "eval_dyad_add" a b.
+Proof.
+  intros a b Hc Hd Hk. unfold m_dyad. rewrite Hc. cbn [negb].
+  change (m_add a b = s2 sc_add a b).
+  change (dom_dyad "eval_dyad_add" a b) with (conformable a b && (all_pairs both_num a b || false || false)) in Hd.
+  rewrite !orb_false_r in Hd. apply andb_true_iff in Hd. destruct Hd as [Hconf Hp].
+  destruct (pairs_num_trees a b Hconf Hp) as [Na Nb].
+  apply add_spec; try assumption. exact (k_np_empty _ _ _ Hk).
+Qed.
+Lemma minus_holds_outside_K : forall a b, canonical a && canonical b = true ->
+  dom_dyad "eval_dyad_subtract" a b = true -> k_dyad "eval_dyad_subtract" a b = "" ->
+  m_dyad "eval_dyad_subtract" a b = s_dyad "eval_dyad_subtract" a b.
+Proof.
+  intros a b Hc Hd Hk. unfold m_dyad. rewrite Hc. cbn [negb].
+  change (m_sub a b = s2 sc_sub a b).
+  change (dom_dyad "eval_dyad_subtract" a b) with (conformable a b && (all_pairs both_num a b || false || false)) in Hd.
+  rewrite !orb_false_r in Hd. apply andb_true_iff in Hd. destruct Hd as [Hconf Hp].
+  destruct (pairs_num_trees a b Hconf Hp) as [Na Nb].
+  apply sub_spec; try assumption. exact (k_np_empty _ _ _ Hk).
+Qed.
+Lemma times_holds_outside_K : forall a b, canonical a && canonical b = true ->
+  dom_dyad "eval_dyad_multiply" a b = true -> k_dyad "eval_dyad_multiply" a b = "" ->
+  m_dyad "eval_dyad_multiply" a b = s_dyad "eval_dyad_multiply" a b.
+Proof.
+  intros a b Hc Hd Hk. unfold m_dyad. rewrite Hc. cbn [negb].
+  change (m_mul a b = s2 sc_mul a b).
+  change (dom_dyad "eval_dyad_multiply" a b) with (conformable a b && (all_pairs both_num a b || false || false)) in Hd.
+  rewrite !orb_false_r in Hd. apply andb_true_iff in Hd. destruct Hd as [Hconf Hp].
+  destruct (pairs_num_trees a b Hconf Hp) as [Na Nb].
+  apply mul_spec; try assumption. exact (k_np_empty _ _ _ Hk).
+Qed.
+
+(* ------------------------------------------------------------------ Take in the form dom -> ~K -> model = spec *)
+Lemma array_size_ge_len : forall l sh, rshape (VL l) = Some sh -> array_size (VL l) <> 0 -> zlen l <= array_size (VL l).
+Proof.
+  intros l sh R Hnz. unfold array_size in *. rewrite R in *.
+  destruct (rshape_list _ _ R) as [s [E _]]. subst sh. cbn [prodn] in *. unfold zlen.
+  destruct (prodn s) as [|k]; [rewrite Nat.mul_0_r in Hnz; cbn in Hnz; congruence|]. nia.
+Qed.
+
+Lemma take_slice_spec : forall n l, array_size (VL l) <> 0 -> Z.abs n <= zlen l -> zlen l <= array_size (VL l) ->
+  m_take (VI n) (VL l) = Ok (VL (s_take VU n l)).
+Proof.
+  intros n l Hnz Hle Hge. unfold m_take. cbn [as_members rejoin].
+  replace (array_size (VL l) =? 0) with false by (symmetry; apply Z.eqb_neq; exact Hnz).
+  replace (array_size (VL l) <? Z.abs n) with false by (symmetry; apply Z.ltb_ge; lia).
+  unfold s_take.
+  assert (Lpos : 0 < zlen l).
+  { destruct l as [|x l']; [cbn in Hnz; congruence|unfold zlen; cbn; lia]. }
+  replace (zlen l =? 0) with false by (symmetry; apply Z.eqb_neq; lia).
+  f_equal. f_equal.
+  destruct (n <? 0) eqn:Eneg.
+  - apply Z.ltb_lt in Eneg. unfold py_last. replace (Z.min n 0) with n by lia.
+    apply (Q_final VU l).
+    + apply (Q_cong VU l (0 + Z.of_nat (Z.to_nat (zlen l - Z.abs n))) n (-1)); [lia|].
+      apply Q_skipn. apply Q_base.
+    + rewrite skipn_length. unfold zlen in *. lia.
+  - apply Z.ltb_ge in Eneg. unfold py_head. replace (Z.min n 0) with 0 by lia.
+    apply (Q_final VU l).
+    + apply Q_firstn. apply Q_base.
+    + rewrite firstn_length. unfold zlen in *. lia.
+Qed.
+
+Local Open Scope string_scope.
+Local Open Scope Z_scope.
+
+Lemma take_holds_outside_K : forall a b, canonical a && canonical b = true ->
+  dom_dyad "eval_dyad_take" a b = true -> k_dyad "eval_dyad_take" a b = "" ->
+  m_dyad "eval_dyad_take" a b = s_dyad "eval_dyad_take" a b.
+Proof.
+  intros a b Hc Hd Hk. rewrite m_dyad_take by exact Hc.
+  destruct a as [n| | | | | |]; try (cbn in Hd; discriminate Hd).
+  destruct b as [z|r|c|s|s|l|]; try (cbn in Hd; discriminate Hd).
+  - rewrite take_string_spec. reflexivity.
+  - change (s_dyad "eval_dyad_take" (VI n) (VL l)) with (Ok (VL (s_take VU n l))).
+    apply andb_true_iff in Hc. destruct Hc as [_ Hcb].
+    change (k_dyad "eval_dyad_take" (VI n) (VL l)) with
+      (if negb (is_normal (VI n) && is_normal (VL l)) then "homogenise"
+       else if ndim_gt1 (VL l) && ((zlen (members (VL l)) <? Z.abs n) || (array_size (VL l) =? 0)) then "take-matrix" else "") in Hk.
+    destruct (negb (is_normal (VI n) && is_normal (VL l))); [discriminate Hk|].
+    destruct (ndim_gt1 (VL l) && ((zlen (members (VL l)) <? Z.abs n) || (array_size (VL l) =? 0))) eqn:EK; [discriminate Hk|].
+    destruct (rshape (VL l)) as [sh|] eqn:R.
+    + destruct (Nat.leb (npdepth (VL l)) 1) eqn:E1.
+      * apply Nat.leb_le in E1. apply take_list_spec. exact E1.
+      * apply Nat.leb_gt in E1.
+        assert (G : ndim_gt1 (VL l) = true).
+        { unfold ndim_gt1. apply orb_true_iff. left. apply Nat.ltb_lt. exact E1. }
+        rewrite G in EK. cbn [andb members] in EK. apply orb_false_iff in EK. destruct EK as [K1 K2].
+        apply Z.ltb_ge in K1. apply Z.eqb_neq in K2.
+        apply take_slice_spec; [exact K2|exact K1|eapply array_size_ge_len; eassumption].
+    + apply take_list_spec. rewrite (npdepth_obj _ R). lia.
+Qed.
